@@ -14,6 +14,8 @@ import (
 
 	"github.com/tuneinsight/lattigo/v6/core/rlwe"
 	"github.com/tuneinsight/lattigo/v6/multiparty"
+	"github.com/tuneinsight/lattigo/v6/utils/sampling"
+	"github.com/tuneinsight/lattigo/v6/multiparty/mpbgv"
 	"github.com/tuneinsight/lattigo/v6/ring"
 	"github.com/tuneinsight/lattigo/v6/schemes/bgv"
 
@@ -290,6 +292,42 @@ func (w *world) step(st stepT) event {
 			dst.Resize(res.Degree(), res.Level())
 			dst.Copy(res)
 			w.key[st.Out] = 2
+			w.observe(st.Out, &e)
+		case "refresh":
+			ct := w.reg[st.A]
+			k := w.key[st.A] - 1
+			pr, err := mpbgv.NewRefreshProtocol(w.p, ring.DiscreteGaussian{Sigma: 1 << 10, Bound: 6 << 10})
+			if err != nil {
+				return err
+			}
+			crs, err := sampling.NewKeyedPRNG([]byte("pipeline refresh"))
+			if err != nil {
+				return err
+			}
+			top := w.p.MaxLevel()
+			crp := pr.SampleCRP(top, crs)
+			sh := [2]multiparty.RefreshShare{pr.AllocateShare(ct.Level(), top), pr.AllocateShare(ct.Level(), top)}
+			for i := 0; i < 2; i++ {
+				if err := pr.GenShare(w.sk[k][i], ct, crp, &sh[i]); err != nil {
+					return err
+				}
+			}
+			agg := pr.AllocateShare(ct.Level(), top)
+			x, y := 0, 1
+			if st.Order == 1 {
+				x, y = 1, 0
+			}
+			if err := pr.AggregateShares(sh[x], sh[y], &agg); err != nil {
+				return err
+			}
+			res := bgv.NewCiphertext(w.p, 1, top)
+			if err := pr.Finalize(ct, crp, agg, res); err != nil {
+				return err
+			}
+			dst := w.out(st.Out, res)
+			dst.Resize(res.Degree(), res.Level())
+			dst.Copy(res)
+			w.key[st.Out] = k + 1
 			w.observe(st.Out, &e)
 		}
 		return nil
